@@ -483,7 +483,7 @@ def classify(case, impl):
 
 
 def run(ck: common.Check):
-    ck.prove(["GeffProps.C14", "GeffProps.C14Inv", "GeffProps.C14Data"])
+    ck.prove(["GeffProps.C14", "GeffProps.C14Inv", "GeffProps.C14Data", "GeffProps.C14Gen"])
     ck.rule = ("cases = corpus + all digraphs (no self loops) on <=N nodes x all labellings up to renaming "
                "(+ one phantom endpoint) + seeded random graphs of 1..7 nodes with component labellings and "
                "single-edit corruptions; non-trivial = at least one edge or two labels; distinct = distinct "
